@@ -37,8 +37,9 @@ func extractStages() {
 	case strings.Contains(ps, "ifconfig.Get().UseHQ{err=hq.SeencheckItem(seed)") && strings.Contains(ps, "}else{err=seencheck.SeencheckItem(seed)") &&
 		!strings.Contains(ps, "UseSeencheck"):
 		seen = "always" // the local store is consulted even with --disable-seencheck (when it was never opened)
-	case strings.Contains(ps, "config.Get().UseSeencheck"):
-		seen = "ifEnabled"
+	case strings.Contains(ps, "ifconfig.Get().UseSeencheck{ifconfig.Get().UseHQ{err=hq.SeencheckItem(seed)") &&
+		strings.Contains(ps, "}else{err=seencheck.SeencheckItem(seed)"):
+		seen = "guarded" // either store is consulted only when seencheck is enabled
 	}
 	if seen == "unknown" {
 		s.missing("preSeencheckGuard", "String", "\"unknown\"")
